@@ -637,6 +637,110 @@ theorem good_view_from_newview {net : Net} (hr : Reach C net) (hA2 : TraceA2 net
 
 end accept
 
+/-! ## the acceptance phase for a stand-alone PREPREPARE (view 0, the normal case) -/
+
+def Pre0pp (C : NetCfg) (v : Nat) (R : List Nat) (ppm : PPMsg) (spi : Nat → List Spi) (j : Nat) (n : Node) (_ : List Out) : Prop :=
+  j ∈ R ∧ n.cfg = C.cfg j ∧ n.view = v ∧ C08.PreprepareAuthentic n ppm ∧ lockConflict n ppm = false
+  ∧ (askValidate { n := n, spi := spi j } ppm.c.header.height ppm.c.header.view ppm.block ppm.c.header.hash).2 = true
+  ∧ C05.Live (handlePrePrepare { n := n, spi := spi j } ppm).n.reg C.height
+
+def Side0pp (C : NetCfg) (v : Nat) (R : List Nat) (ppm : PPMsg) (net : Net) : Prop :=
+  (∀ k ∈ R ++ [ldr C v], net.started k = true) ∧ ∃ rs, Out.send rs (.preprepare ppm) ∈ net.outs (ldr C v)
+
+structure PPShape (C : NetCfg) (v : Nat) (b : Block) (ppm : PPMsg) : Prop where
+  inst : ppm.c.header.inst = C.inst
+  height : ppm.c.header.height = C.height
+  view : ppm.c.header.view = v
+  block : ppm.block = some b
+  sender : ppm.c.sender.id = ldr C v
+
+section acceptpp
+variable (hwf : WF C) (v : Nat) (b : Block) (R : List Nat) (crew : Crew C v R) (ppm : PPMsg) (spi : Nat → List Spi)
+  (hshape : PPShape C v b ppm)
+
+include hwf crew hshape in
+theorem turn0pp (net : Net) (j : Nat) (hr : Reach C net) (hside : Side0pp C v R ppm net) (hpre : Pre0pp C v R ppm spi j (net.node j) (net.outs j)) :
+    ∃ net', Reach C net'
+      ∧ (Pre1 C v ppm.c.header.hash b R j (net'.node j) (net'.outs j)
+          ∧ Out.send (others (C.cfg j)) (.prepare (ownPrepare (C.cfg j) C.height v ppm.c.header.hash)) ∈ net'.outs j)
+      ∧ Frame net net' j := by
+  obtain ⟨hjR, hcfg, hview, hauth, hlock, hok, hlive⟩ := hpre
+  have hjm : j ∈ R ++ [ldr C v] := List.mem_append_left _ hjR
+  obtain ⟨hhj, hmj⟩ := crew.good j hjm
+  obtain ⟨hhL, hmL⟩ := crew.good (ldr C v) (List.mem_append_right _ (List.mem_singleton.mpr rfl))
+  have hjL : j ≠ ldr C v := by intro e; rw [e] at hjR; exact crew.notLeader hjR
+  obtain ⟨rs, hsent⟩ := hside.2
+  have hstarted := hside.1 j hjm
+  obtain ⟨net', hr', en, eo, fr, st, hh⟩ := event_step hwf hr j hhj hmj hstarted (.deliver (.preprepare ppm)) (spi j)
+    (fun _ h => by cases h)
+    ⟨hshape.inst, hshape.height, by show ppm.c.sender.id ≠ j; rw [hshape.sender]; exact fun e => hjL e.symm, trivial⟩
+    (C01Net.sent_admissible hwf hr hhL hmL hsent)
+  have hnone : (net.node j).store.getPP C.height v = none := by
+    have := hauth.2.2.2; rw [hshape.height, hshape.view] at this; exact this
+  have hprep : (net.node j).prepared ≠ some ppm.c.header.view := by
+    rw [hshape.view]
+    intro hp
+    obtain ⟨⟨T, hcore, _⟩, _⟩ := (reach_inv hwf hr).nodes j hhj hmj hstarted
+    obtain ⟨_, ⟨p0, hg, _⟩, _⟩ := hcore.ginv.prep v hp
+    rw [hcfg] at hg
+    have : (net.node j).store.getPP C.height v = some p0 := hg
+    rw [hnone] at this; cases this
+  have hfit : C06.Fits (net.node j).cfg.members := by rw [hcfg]; exact hwf.fit
+  have hq : isQuorum (net.node j).cfg (R ++ [ppm.c.sender.id]) = true := by
+    rw [hshape.sender, hcfg]; exact crew.quorum
+  obtain ⟨s1, s2, s3, s4, s5, s6⟩ := C05.preprepare_accepted_state { n := net.node j, spi := spi j } ppm b R hfit hauth hlock hok
+    (by rw [hshape.view]; exact hview) hshape.block hprep hq
+  simp only [hshape.view, hshape.height] at s2 s3 s4 s5 s6
+  have e1 : net'.node j = (handlePrePrepare { n := net.node j, spi := spi j } ppm).n := en
+  have e2 : net'.outs j = net.outs j ++ (handlePrePrepare { n := net.node j, spi := spi j } ppm).outs := eo
+  have hsend : Out.send (others (C.cfg j)) (.prepare (ownPrepare (C.cfg j) C.height v ppm.c.header.hash)) ∈ net'.outs j := by
+    rw [e2]; apply List.mem_append_right
+    have := s5; rw [hcfg] at this; exact this
+  refine ⟨net', hr', ⟨⟨hjm, ?_, ?_, ?_, ?_⟩, hsend⟩, ⟨fr, st, by intro o ho; rw [e2]; exact List.mem_append_left _ ho, hh⟩⟩
+  · exact ⟨by rw [e1, s1]; exact hcfg, ⟨ppm, by rw [e1]; exact s3, hshape.block, rfl, hshape.sender⟩, by rw [e1]; exact hlive⟩
+  · rw [e1]; exact s2
+  · intro _
+    rw [e1]
+    have := s4; rw [hcfg] at this; exact this
+  · rcases s6 with hc | hc
+    · left
+      obtain ⟨k1, k2⟩ := hc
+      rw [hcfg] at k1 k2
+      exact ⟨by rw [e1]; exact k1, by rw [e2]; exact List.mem_append_right _ k2⟩
+    · right; rw [e1]; exact hc
+
+include hwf crew hshape in
+/-- **From the leader's PREPREPARE to a decision** (the normal case: view 0, or any view in which the
+members follow a stand-alone proposal). -/
+theorem good_view_from_preprepare {net : Net} (hr : Reach C net) (hside : Side0pp C v R ppm net)
+    (hfollowers : ∀ j ∈ R, Pre0pp C v R ppm spi j (net.node j) (net.outs j))
+    (hleader : Pre1 C v ppm.c.header.hash b R (ldr C v) (net.node (ldr C v)) (net.outs (ldr C v))) :
+    ∃ net', Reach C net' ∧ OutsLe net net'
+      ∧ ∀ j ∈ R ++ [ldr C v], ∃ blk cs, Out.commit blk cs ∈ net'.outs j := by
+  obtain ⟨n0, hr0, hs0, hpost0, hsame0, hst0, hle0⟩ := sweep (C := C) (Pre0pp C v R ppm spi)
+    (fun j n outs => Pre1 C v ppm.c.header.hash b R j n outs
+      ∧ Out.send (others (C.cfg j)) (.prepare (ownPrepare (C.cfg j) C.height v ppm.c.header.hash)) ∈ outs)
+    (Side0pp C v R ppm)
+    (by
+      intro a a' hs hle hst
+      obtain ⟨rs', hs'⟩ := hs.2
+      exact ⟨fun k hk => by rw [hst]; exact hs.1 k hk, rs', hle _ _ hs'⟩)
+    (fun net j hr hs hp => turn0pp hwf v b R crew ppm spi hshape net j hr hs hp)
+    R crew.nodup net hr hside hfollowers
+  have hside1 : Side1 C v ppm.c.header.hash R n0 := ⟨hs0.1, fun k hk => (hpost0 k hk).2⟩
+  have hpre1 : ∀ j ∈ R ++ [ldr C v], Pre1 C v ppm.c.header.hash b R j (n0.node j) (n0.outs j) := by
+    intro j hj
+    rcases List.mem_append.mp hj with hj | hj
+    · exact (hpost0 j hj).1
+    · rw [List.mem_singleton] at hj
+      subst hj
+      rw [(hsame0 _ crew.notLeader).1, (hsame0 _ crew.notLeader).2]
+      exact hleader
+  obtain ⟨n2, hr2, hle2, hc⟩ := good_view_decides hwf v ppm.c.header.hash b R crew hr0 hside1 hpre1
+  exact ⟨n2, hr2, fun k o ho => hle2 k o (hle0 k o ho), hc⟩
+
+end acceptpp
+
 /-! ## non-vacuity
 
 The committee of `C01Net` (members 1–4, unit weights, member 4 Byzantine).  After the five steps in
@@ -726,6 +830,37 @@ theorem ex_good_view_after_view_change :
       rw [hl, hn, ho]
       exact ⟨by decide, ⟨rfl, ⟨⟨C11Net.exNV.pp, C11Net.exNV.block⟩, by decide, rfl, rfl, by decide⟩, ⟨by decide, by decide⟩⟩, by decide,
         fun h => absurd rfl h, Or.inr ⟨by decide, 1, by decide, by decide⟩⟩)
+  refine ⟨net', hr', ?_⟩
+  intro j hj
+  exact hc j (by rw [hl]; simpa using hj)
+
+/-- the normal case: members 1, 2, 3 have started, leader 1 has proposed; everything else — the
+deliveries of the PREPREPARE, the PREPAREs and the COMMITs — is the schedule `good_view_from_preprepare`
+constructs: all three decide in view 0 -/
+theorem ex_good_view_normal_case :
+    ∃ net, Reach exC net ∧ ∀ j ∈ [2, 3, 1], ∃ blk cs, Out.commit blk cs ∈ net.outs j := by
+  obtain ⟨net, hr, ⟨hn, hs, ho⟩, _⟩ := sim_reach exWF (exSched5.take 3) (SimState.init exC) (Net.init exC) .init (agrees_init exC) (by decide)
+  have hl : ldr exC 0 = 1 := by decide
+  have hshape : PPShape exC 0 exBlock exPP := ⟨rfl, rfl, rfl, rfl, by decide⟩
+  have hside : Side0pp exC 0 [2, 3] exPP net := by
+    refine ⟨?_, [2, 3, 4], ?_⟩
+    · intro k hk
+      have : k = 2 ∨ k = 3 ∨ k = 1 := by rw [hl] at hk; simpa using hk
+      rw [hs]
+      rcases this with rfl | rfl | rfl <;> decide
+    · rw [hl, ho]; exact C11Net.mem_sendsOf (by decide)
+  obtain ⟨net', hr', _, hc⟩ := good_view_from_preprepare exWF 0 exBlock [2, 3] exCrew exPP (fun _ => [.verdict true none]) hshape hr hside
+    (by
+      intro j hj
+      have : j = 2 ∨ j = 3 := by simpa using hj
+      rw [hn]
+      rcases this with rfl | rfl
+      · exact ⟨hj, rfl, by decide, ⟨rfl, rfl, by decide, by decide⟩, by decide, by decide, ⟨by decide, by decide⟩⟩
+      · exact ⟨hj, rfl, by decide, ⟨rfl, rfl, by decide, by decide⟩, by decide, by decide, ⟨by decide, by decide⟩⟩)
+    (by
+      rw [hl, hn, ho]
+      exact ⟨by decide, ⟨rfl, ⟨exPP, by decide, rfl, rfl, by decide⟩, ⟨by decide, by decide⟩⟩, by decide,
+        fun h => absurd rfl h, Or.inr ⟨by decide, 2, by decide, by decide⟩⟩)
   refine ⟨net', hr', ?_⟩
   intro j hj
   exact hc j (by rw [hl]; simpa using hj)
